@@ -143,6 +143,9 @@ func (fg *FuncGen) mapComps(m *types.Map) (dom, val *Comp) {
 
 // get returns the current version of a component in state s.
 func (fg *FuncGen) get(s *State, c *Comp) string {
+	if fg.recording != nil {
+		fg.recording[c.Name] = true
+	}
 	if v, ok := s.heap[c.Name]; ok {
 		return v
 	}
@@ -151,6 +154,23 @@ func (fg *FuncGen) get(s *State, c *Comp) string {
 }
 
 func (fg *FuncGen) set(s *State, c *Comp, term string) {
+	if !fg.inCallHavoc {
+		r := fg.storeRefHint
+		if r == "" {
+			r = "*"
+		} else {
+			r = fg.reach + "\x00" + r // the store happens only on paths where its block is reached
+		}
+		dup := false
+		for _, x := range fg.ownMods[c.Name] {
+			if x == r {
+				dup = true
+			}
+		}
+		if !dup {
+			fg.ownMods[c.Name] = append(fg.ownMods[c.Name], r)
+		}
+	}
 	// introduce a named version to keep terms small
 	name := fg.enc.freshName(c.Name)
 	v := fg.enc.declConst(name, c.Sort)
